@@ -218,33 +218,37 @@ func (c *checker) firstSeededMember(idx, k string) bool {
 	return true
 }
 
-// sortKeyQuiet: did no other request rewrite the attribute the index is sorted by while ev ran?
-func (c *checker) sortKeyQuiet(k, idx string, self int, ev *event) bool {
+// concurrentWriteTo: did a write to key k run while the claim ev ran that (position) inserted the
+// record into the index idx or gave it a new sort key - a Set (it may create the record, and it
+// writes key, ExpiredAt and CreatedAt), on the expiry index also a PatchTreasures with SetExpiredAt
+// or a PatchExpired slide - or that (eligibility) changed what the claim's criteria see of it - any
+// other PatchTreasures / PatchExpired of k?
+func (c *checker) concurrentWriteTo(k, idx string, self int, ev *event) (position, eligibility bool) {
 	for _, w := range c.w[k] {
 		if !overlaps(w.start, w.end, ev.Start, ev.End) {
 			continue
 		}
-		// a Set may be creating the record (it enters every index somewhere during the claim)
 		if w.kind == "set" || (idx == "exp" && w.setsExp) {
-			return false
+			position = true
+		} else {
+			eligibility = true
 		}
 	}
-	if idx == "key" {
-		return true
-	}
-	if idx == "exp" {
-		for i, o := range c.evs {
-			if i == self || o == nil || o.Kind != "pex" || !overlaps(o.Start, o.End, ev.Start, ev.End) {
-				continue
-			}
-			for _, cl := range o.Claims {
-				if cl.Key == k {
-					return false
+	for i, o := range c.evs {
+		if i == self || o == nil || o.Kind != "pex" || !overlaps(o.Start, o.End, ev.Start, ev.End) {
+			continue
+		}
+		for _, cl := range o.Claims {
+			if cl.Key == k && cl.Status == "PATCHED" {
+				if idx == "exp" && !c.ops[i].NoSlide {
+					position = true
+				} else {
+					eligibility = true
 				}
 			}
 		}
 	}
-	return true
+	return position, eligibility
 }
 
 // anyCouldMatchIndexed: could any version of any record that ever existed in this run satisfy the
@@ -474,8 +478,11 @@ func checkLog(s *sched, lg *runLog) (findings []finding, stats map[string]int) {
 		if o.Kind == "shm" {
 			idx = o.Index
 		}
-		var prev *claimed
-		var prevPos int64
+		type placed struct {
+			cl  *claimed
+			pos int64
+		}
+		var returned []placed // the returned records whose index position is known, in answer order
 		for j := range ev.Claims {
 			cl := &ev.Claims[j]
 			if cl.B.Bad != "" || (o.Kind == "pex" && cl.Status != "PATCHED") {
@@ -535,27 +542,41 @@ func checkLog(s *sched, lg *runLog) (findings []finding, stats map[string]int) {
 						i, fmtFilter(o.F), cl.Key, cl.B.St, cl.B.G, cl.B.N, cl.B.Ver, cl.B.Pv)
 				}
 			}
-			if !posOK || !c.sortKeyQuiet(cl.Key, idx, i, ev) {
-				// the position of a record whose sort attribute is being rewritten while the claim
-				// runs is not defined; it takes no part in the order comparison
-				continue
+			if posOK {
+				returned = append(returned, placed{cl, pos})
 			}
-			if prev != nil {
+		}
+		// Every pair (a answered before b): b must not precede a in index order. The property speaks
+		// per claim moment - each record is the first matching one when it is claimed - so a pair is
+		// excused only if b got its index position (insert, or a new sort key) from a write that ran
+		// while the claim ran, or became eligible through such a write: when a was claimed, b was not
+		// there to be taken. Everything else is a violation.
+		for x := 0; x < len(returned); x++ {
+			for y := x + 1; y < len(returned); y++ {
+				a, b := returned[x], returned[y]
 				bad := false
 				if idx == "key" {
-					bad = (!o.Desc && cl.Key <= prev.Key) || (o.Desc && cl.Key >= prev.Key)
+					bad = (!o.Desc && b.cl.Key <= a.cl.Key) || (o.Desc && b.cl.Key >= a.cl.Key)
 				} else {
-					bad = (!o.Desc && pos < prevPos) || (o.Desc && pos > prevPos)
+					bad = (!o.Desc && b.pos < a.pos) || (o.Desc && b.pos > a.pos)
 				}
-				if bad {
+				if !bad {
+					continue
+				}
+				position, eligibility := c.concurrentWriteTo(b.cl.Key, idx, i, ev)
+				switch {
+				case position:
+					c.stats["order_pairs_excused_concurrent_position_change"]++
+				case eligibility:
+					c.stats["order_pairs_excused_concurrent_eligibility_change"]++
+				default:
 					dir := "asc"
 					if o.Desc {
 						dir = "desc"
 					}
-					c.fail("order:"+ev.Kind+":"+idx+"-"+dir+":not-in-index-order", "%s (request %d) returned key %s (position %d) after key %s (position %d) on the %s index %s", ev.Kind, i, cl.Key, pos, prev.Key, prevPos, idx, dir)
+					c.fail("order:"+ev.Kind+":"+idx+"-"+dir+":not-in-index-order", "%s (request %d) returned key %s (position %d) after key %s (position %d) on the %s index %s, and no write to %s ran while the claim ran", ev.Kind, i, b.cl.Key, b.pos, a.cl.Key, a.pos, idx, dir, b.cl.Key)
 				}
 			}
-			prev, prevPos = cl, pos
 		}
 	}
 
